@@ -37,6 +37,8 @@ func (c *cancelCtx) Err() error {
 	return nil
 }
 
+var optionalCoverKPGC = []string{"kpgc-drained"}
+
 type idxUpdate struct {
 	key []byte
 	blk types.Block
@@ -288,6 +290,24 @@ func Verif_KPGC() {
 				vrt.Assert(mp.VerifFreedOnDisk(locOf(rec)), "relocated-record-old-location-freed", "rec", i)
 			}
 		}
+	}
+	// C11, low-use clause: with threshold 0 every non-current file counts as low-use, so
+	// file 0 must be drained by relocation (at most two records per cycle) and released
+	// within a bounded number of further cycles (each preceded by what a store flush does);
+	// its live records stay readable at the locations handed to the index.
+	if lowUse == 0 && !failUpdate && vrt.Param("drain", 1) != 0 {
+		for c := 0; c < 3; c++ {
+			_, err = mp.Flush()
+			vrt.Assert(err == nil, "flush-no-error")
+			_, err = fl.Flush()
+			vrt.Assert(err == nil, "freelist-flush-no-error")
+			_, err = mp.GC(context.Background(), lowUse)
+			vrt.Assert(err == nil, "gc-no-error", "where", "drain")
+		}
+		fi, serr := os.Stat(primaryFileName(base, 0))
+		vrt.Assert(serr != nil || fi.Size() == 0, "low-use-file-drained-and-released", "records", r)
+		check("after-drain")
+		vrt.Cover(optionalCoverKPGC[0])
 	}
 	vrt.Assert(mp.Close() == nil, "close-no-error")
 	vrt.Cover("kpgc-end")
